@@ -70,15 +70,22 @@ fn eval(w: &mut World, p: &P13, rec: &mut Rec) -> bool {
             if !out.is_ok() && w.app.storage().data != s0.storage.data {
                 rec.viol("C13_failed_trade_changed_state", format!("{:?}", p));
             }
-            let Ok(sim) = sim else {
-                // the trade cannot even be quoted: nothing to protect, it must be refused
-                if out.is_ok() {
-                    rec.viol("C13_unquotable_trade_executed", format!("{:?}", p));
+            // the return is computed independently (constant product, each fee floored on the gross output), so a
+            // trade the contract cannot even quote is still judged
+            let gross = big(*y) * big(*offer) / (big(*x) + big(*offer));
+            let fl = |bps: u64| &gross * big(bps as u128) / big(10_000);
+            let fee_total: BigInt = fl(fees.p) + fl(fees.s) + fl(fees.b) + fees.x.iter().map(|b| fl(*b)).sum::<BigInt>();
+            let net_exact = &gross - &fee_total;
+            match &sim {
+                Ok(s) => {
+                    if big(s.return_amount.u128()) != net_exact {
+                        rec.count("c13_cp_quote_differs_from_exact");
+                    }
                 }
-                rec.count("c13_cp_unquotable");
-                return true;
-            };
-            let net = big(sim.return_amount.u128());
+                Err(_) => rec.count("c13_cp_unquotable"),
+            }
+            let net = net_exact.clone();
+            let sim_ret = sim.as_ref().map(|s| s.return_amount.to_string()).unwrap_or_else(|e| format!("unquotable: {e}"));
             let t = big(eff_tol(*tol));
             let den = big(E18);
             let slack = BigInt::from(2); // 2e-18 on the tolerance: the contract floors its ratio at 18 digits
@@ -104,10 +111,10 @@ fn eval(w: &mut World, p: &P13, rec: &mut Rec) -> bool {
             }
             rec.count(if must_accept { "c13_cp_must_accept" } else if must_reject { "c13_cp_must_reject" } else { "c13_cp_dont_care_band" });
             if must_accept && !out.is_ok() {
-                rec.viol_kf("C13_protected_trade_refused", format!("{:?}", p), format!("{:?}: return {} is within the tolerance but the swap was refused: {}", p, sim.return_amount, out.err_text()));
+                rec.viol_kf("C13_protected_trade_refused", format!("{:?}", p), format!("{:?}: return {} (quote: {}) is within the tolerance but the swap was refused: {}", p, net_exact, sim_ret, out.err_text()));
             }
             if must_reject && out.is_ok() {
-                rec.viol_kf("C13_unprotected_trade_executed", format!("{:?}", p), format!("{:?}: return {} is outside the tolerance but the swap executed", p, sim.return_amount));
+                rec.viol_kf("C13_unprotected_trade_executed", format!("{:?}", p), format!("{:?}: return {} (quote: {}) is outside the tolerance but the swap executed", p, net_exact, sim_ret));
             }
             true
         }
